@@ -199,9 +199,19 @@ def excess_unit(v, res):
         res.states += 1
         res.enumerated += 1
         res.nontrivial += 1
-        judge(res, v, name, '\r'.join([st.msh_line(v, name), 'EVN', line, 'PV1']) if True else
-              '\r'.join([st.msh_line(v, name), line]), 'excess:' + tag, 3)
+        judge(res, v, name, '\r'.join([st.msh_line(v, name), 'EVN', line, 'PV1']), 'excess:' + tag, 3)
     res.dims['excess lines'] += len(cases)
+    # fields of datatype varies (OBX-5): components / subcomponents / repetitions with empty ones before valued ones; the
+    # element names of such a field carry no datatype, so the position of a component is kept by the empty ones
+    vcases = []
+    for k, val in enumerate(('120^^mmHg', '^^80', 'a^^b~^c', '^p&&q^^r&s', 'x^^^^^^^^^y', '~^^z', 'a&b&&c')):
+        vcases.append(('varies-%d' % k, 'OBX|1|CE|C^T||%s|u' % val))
+    for tag, line in vcases:
+        res.states += 1
+        res.enumerated += 1
+        res.nontrivial += 1
+        judge(res, v, name, '\r'.join([st.msh_line(v, name), 'EVN', 'PID|1', 'PV1|1', line]), 'excess:' + tag, 4)
+    res.dims['varies lines'] += len(vcases)
 
 
 def units(tier):
